@@ -64,7 +64,7 @@ def run_spec(names, name, shards=12):
         dist += r.distinct
         for p in r.printed:
             if isinstance(p, dict) and "leaf" in p:
-                recs[p["leaf"]] = p
+                recs[p["leaf"] + (".inv" if p.get("derived") else "")] = p
     missing = [n for n in names if n not in recs]
     if missing:
         raise MachineryError(f"MatGrad export incomplete: {missing}")
@@ -102,10 +102,15 @@ def _tag(l):
 def check_against_real(recs):
     """Returns (violations [(owner, sig, what, replay)], number of gradient entries compared)."""
     viol, n = [], 0
-    for name, rec in recs.items():
+    for key, rec in recs.items():
+        name = rec["leaf"]
         l = ME.BY_NAME[name]
         rp = {"engine": "matgrad", "leaf": name}
         obj = ME.build_leaf(name)
+        if rec.get("derived"):
+            obj = obj.inv     # an object of the same class, built by the library itself (inverse factors inside)
+            l = dict(l, cls=l["cls"] + ".inv")
+        name = key
         v = np.array([_rat(x) for x in rec["vec"]])
 
         def one(o, cls_l, blk, vec, where):
